@@ -309,7 +309,20 @@ func (c *flowCtx) decideEq(x, y ssa.Value) (bool, bool) {
 	if c.k.alias >= 0 && xi >= 0 && yi >= 0 && xi != yi && isAssumed(xi) && isAssumed(yi) {
 		return true, true
 	}
+	// In the BigInt wrappers the alias helpers' results are already resolved under the convention that,
+	// apart from the pair under analysis, the *BigInt parameters are different objects (provCtx
+	// distinctParams); the same test written out (`if y != z { yi = y.inner(&tmp) }`) is decided the same way.
+	if xi >= 0 && yi >= 0 && xi != yi && !(isAssumed(xi) && isAssumed(yi)) && c.bigIntWrapper() &&
+		isBigIntPtr(c.f.Params[xi].Type()) && isBigIntPtr(c.f.Params[yi].Type()) {
+		return false, true
+	}
 	return false, false
+}
+
+// bigIntWrapper: the analysed function is a method of BigInt.
+func (c *flowCtx) bigIntWrapper() bool {
+	recv := c.f.Signature.Recv()
+	return recv != nil && c.w.apdTypeName(recv.Type()) == "BigInt"
 }
 
 func (c *flowCtx) computeDead() {
